@@ -2,14 +2,35 @@ CONFIG = dict(
         level='proof',
         streams=[dict(harness='c16', driver='c16', shrink_field='commits'),
                  dict(harness='c16m', driver='c16', shrink_field='ids')],
-        rule='stream c16: a commit list (Author.Name, Author.Email as byte strings) and the mode (ExactSignatures on/off) go through the real '
-             'identity.Detector: GeneratePeopleDict on commits of an in-memory repository without .mailmap, then Consume for every commit of '
-             'the list; recorded: PeopleDict (sorted by key), ReversedPeopleDict, the author indices. Kinds: exh1..3 (thorough ..4) = every list '
-             'over 12 signatures {a,A,b} x {a,E,e,""} (a name equal to an e-mail, case variants, empty e-mail) in both modes; dense / mid / '
-             'wide = random lists of 1..40 signatures over pools of 5..17 names and 5..14 e-mails with random ASCII case flips, empty fields, '
-             'names that are e-mails of others, "<", ">" and non-ASCII letters; crossed = e-mails drawn from the names; bars = names/e-mails '
-             'containing "|"; empty = the empty list (Go panics). Non-trivial = at least 2 commits and a lower-cased name or e-mail that '
-             'occurs twice. Stream c16m: a pair of identity lists goes through the real MergeReversedDictsIdentities (3 runs, answers must '
+        rule='stream c16: a commit list (Author.Name, Author.Email as byte strings), the mode (ExactSignatures on/off) and optionally the '
+             '.mailmap blob of the LAST commit go through the real identity.Detector: GeneratePeopleDict on commits of an in-memory '
+             'repository, then Consume for every commit of the list; recorded: PeopleDict (sorted by key), ReversedPeopleDict, the author '
+             'indices (with a mailmap: two executions, eight on replay, because the outcome depends on Go map order), identity.ParseMailmap of '
+             'the blob (hook), and strings.ToLower of every string on which it differs from ASCII lower-casing (the model uses that table as '
+             'its "lower"). Kinds without mailmap: exh1..3 (thorough ..4) = every list over 12 signatures {a,A,b} x {a,E,e,""} in both modes; '
+             'dense / mid / wide = random lists of 1..40 signatures over pools of 5..17 names and 5..14 e-mails with random ASCII case flips, empty '
+             'fields, names that are e-mails of others; crossed = e-mails drawn from the names; bars = names/e-mails containing "|"; attr / '
+             'attr-exh1/2 (input attributes) = names and e-mails containing "|", "<", ">", " <", "a <a@x>", leading / trailing / inner spaces and '
+             'tabs, upper/lower pairs outside ASCII (Latin-1, decomposed accents, Greek incl. final sigma, Cyrillic, Kelvin sign -> k, dotted '
+             'capital I -> two runes, titlecase digraph) and invalid UTF-8 bytes; empty = the empty list (Go panics). Mailmap kinds (in-memory '
+             'repository whose last commit has a .mailmap blob): mm-exh1 = every one-line mailmap over 81 lines (canonical name {"",a,B} x '
+             'canonical e-mail {"",e@,a} x commit name {"",a,b} x commit e-mail {e@,c@,A}: all four entry forms and the e-mail-only form) x all '
+             'commit lists of length <=2 over 6 signatures; mm-exh2 = all 6 561 two-line mailmaps x 1 (thorough 3) commit lists; mm-forms = random '
+             'mailmaps of 1..5 entries in the forms "N <c>", "<p> <c>", "N <p> <c>", "N <p> M <c>", same-name "N <p> N <c>", with case flips, '
+             'comments, blank lines, tabs / CR / doubled spaces; mm-homonym = several developers sharing one name, e-mail-only entries, mapped '
+             'addresses with and without commits; mm-existing = entries whose canonical name / e-mail is that of an author of the list or of '
+             'another entry; mm-attr = input-attribute strings inside mailmap lines; mm-exact = mailmap + ExactSignatures (file not read, '
+             'also malformed ones); mm-decoy = a .mailmap in every commit but the last (ignored); mmx-overlap = a key that is also a canonical '
+             'e-mail / name of another entry or two keys differing by case (outside mm_domb: finding mailmap-overlap); mmp-malformed = junk '
+             'lines ("a>", "-->", "N > <c@x>", trailing text, empty brackets, ...) and randomly cut / spliced / delimiter-injected lines '
+             '(ParseMailmap panics on some: finding mailmap-parse-panic). Scale kinds (judged per commit with hash tables in the driver + full '
+             'comparison with the model; no quadratic oracle): scale-few = 10^3, 10^4, 10^5 (thorough 10^6) commits over p names x q e-mails, p, q '
+             'in 15/16/17, 255/257, 1023/1025, both modes; scale-chain = one developer with 255 / 513 (thorough 1000, 2049, 10^4, 10^5) names and '
+             'e-mails, ascending / descending / shuffled; scale-many = 255, 256, 257, 1000 developers (thorough 4095..4097 and, judged without the '
+             'model, 2^16-1..2^16+1 and 2^18-3..2^18+1 around AuthorMissing = 2^18-2); scale-mailmap = .mailmap of 80 / 900 (thorough 9000) lines '
+             'with 10^3 / 10^4 (10^5) commits. Non-trivial = at least 2 commits and a lower-cased name or e-mail that occurs twice, or a mailmap '
+             'entry that touches an author of the list. Stream c16m: a pair of identity lists goes through the real '
+             'MergeReversedDictsIdentities (3 runs, answers must '
              'agree) and MergeReversedDictsLiteral; recorded: the index map sorted by key and the merged list. Kinds: dom-exh4 = all 22 500 '
              'pairs of lists of pairwise disjoint entries over the parts {a, b, x@, ""}; all-exh / f7-all-exh = all 3 249 pairs of lists of <=2 '
              'entries over {a, b, x@} without the disjointness restriction (thorough also <=3 entries over {a, x@} and 150 000 sampled pairs '
@@ -17,14 +38,25 @@ CONFIG = dict(
              'lists, broken or shuffled), dom-apart (nothing merges, one list empty), dom-namemail (sharing only a name / only an e-mail); '
              'f7-* = a part occurs in two entries of ONE list (finding F7), kept apart by name. Non-trivial = at least 2 identities and a part '
              'shared between the two lists. Distinct = distinct input fields.',
-        exhaustive_note='every commit list of length <=3 (thorough <=4) over 12 signatures x both modes; every pair of lists of pairwise disjoint '
+        exhaustive_note='every commit list of length <=3 (thorough <=4) over 12 signatures x both modes; every one-line mailmap over 81 lines x every '
+                        'commit list of length <=2 over 6 signatures, every two-line mailmap over the same lines; every pair of lists of pairwise disjoint '
                         'entries over 4 parts (22 500 pairs); every pair of lists of <=2 arbitrary entries over 3 parts (3 249 pairs)',
         assumptions=[
-            'strings.ToLower is modelled as an arbitrary function in every theorem (no hypothesis); the replay instantiates it with ASCII '
-            'lower-casing, which equals strings.ToLower on the generated strings: ASCII plus valid UTF-8 of characters that are not the '
-            'upper-case form of another character (a string such as "\\u00c9@x" would show up as a PeopleDict mismatch)',
-            'the repository has no .mailmap (the mailmap branch of GeneratePeopleDict is not modelled); the commit list is not empty '
+            'strings.ToLower is modelled as an arbitrary function in every theorem (no hypothesis). strings.ToLower is Unicode lower-casing per rune '
+            '(invalid UTF-8 bytes become U+FFFD); the replay instantiates "lower" with ASCII lower-casing (bytes A-Z + 32) overridden, on every string '
+            'of the case on which Go disagrees with that, by the value strings.ToLower returned in the harness (observation field "lower"), so "same '
+            'e-mail case-insensitively" is judged with Go\'s own notion; only C16_same_name_and_email and C16_lower_ascii_keeps_bars_out are '
+            'about ASCII lower-casing specifically',
+            'the .mailmap branch is modelled on the PARSED table (generate_people_dict_mm); the table given to the model is the one '
+            'identity.ParseMailmap returned in the harness; ParseMailmap itself is modelled (parse_mailmap, no theorem) and compared with it, '
+            'with strings.TrimSpace restricted to ASCII white space (generated texts contain no U+0085, U+00A0 or other Unicode spaces); the '
+            'description theorem with a mailmap assumes mm_domb (lower-cased keys pairwise different, not empty, and a key that is also a '
+            'canonical e-mail / name belongs to an entry with the same canonical pair); outside it the clause is false '
+            '(C16_mailmap_description_refuted = finding mailmap-overlap); the commit list is not empty '
             '(Go panics on commits[len(commits)-1]; modelled as None and replayed)',
+            'Go iterates the parsed mailmap in map order: the theorems quantify over every permutation; the replay searches an order for which the '
+            'model returns the implementation\'s dictionaries (entries sorted by the developer index the implementation gave them, rotations of '
+            'the file order, all permutations up to 6 entries, 200 random group shuffles) and reports a MISMATCH when there is none',
             'merge theorems C16_merge_total/_components/_union/C16_pointers assume merge_domb rd1 rd2 = true: no part occurs in two different '
             'entries of the same input list; C16_generated_lists_in_domain proves this for every ReversedPeopleDict produced by '
             'GeneratePeopleDict from names and e-mails without "|"; outside it the statements are false (C16_merge_refuted, '
@@ -33,13 +65,17 @@ CONFIG = dict(
             'the replay uses the identity',
         ],
         trusted_base=[
-            'hand-written Gallina models coq/theories/Plumbing/Identity.v (GeneratePeopleDict both modes, Consume) and IdentityMerge.v '
+            'hand-written Gallina models coq/theories/Plumbing/Identity.v (GeneratePeopleDict both modes, Consume), IdentityMailmap.v (the '
+            '.mailmap loop of GeneratePeopleDict on the parsed table, ParseMailmap incl. its two panicking slices) and IdentityMerge.v '
             '(MergeReversedDictsIdentities as written incl. the one-index-per-part vocabulary, MergeReversedDictsLiteral) of '
             'internal/plumbing/identity/identity.go, tied to the code by the replay of every harness case (dictionaries, descriptions, '
             'author indices, index maps and merged lists compared exactly)',
             'Go strings (==, <, strings.Split/Join/ToLower/ContainsRune), sort.Strings / sort.Slice and go-git object.Commit.File are '
             'modelled (IdStr.v), not verified',
-            're-exports /repo/verifapi/c16/c16.go (build tag verif)',
+            're-exports /repo/verifapi/c16/c16.go and /repo/verifapi/c16/mailmap.go (build tag verif)',
+            'for cases with more than 3000 commits the driver states total / same-e-mail with hash tables per commit instead of the extracted '
+            'quadratic oracle, and for the (nomodel 1) cases (>= 2^14 developers, chains of >= 10^4) also the description clause (keys of a '
+            'developer = parts of its description); all other cases are additionally compared with the model exactly',
         ],
         level_text='Coq theorems over all commit lists x both modes x all map orders for the Gallina model of GeneratePeopleDict + Consume: '
                    'C16_total (every author of the list resolves below the number of developers), C16_same_email / C16_same_signature '
@@ -49,11 +85,20 @@ CONFIG = dict(
                    'domain "no part in two entries of one list", C16_merge_total, C16_merge_components (same Final <-> connected), '
                    'C16_merge_union, C16_pointers; C16_generated_lists_in_domain (outputs of GeneratePeopleDict are in that domain); '
                    'C16_merge_refuted / C16_pointers_refuted (the property is FALSE outside the domain: finding F7, confirmed on the Go code); '
-                   'soundness of the replay oracles (C16_oracle_*). All closed under the global context.',
+                   'soundness of the replay oracles (C16_oracle_*). With a .mailmap (parsed table mm, every iteration order of it): '
+                   'C16_mailmap_total and C16_mailmap_same_email for EVERY table, C16_mailmap_dict_keys, and in the domain mm_domb '
+                   'C16_mailmap_description_exact (description = sorted duplicate-free names | e-mails, a string is listed iff PeopleDict attaches it '
+                   'to the developer, every developer has a key) and C16_mailmap_entries_honoured (the key of an entry is attached to the developer '
+                   'of its canonical e-mail or name); C16_mailmap_description_refuted / C16_mailmap_order_dependent (outside the domain the clause is '
+                   'false and the number of developers depends on map order: finding mailmap-overlap); C16_mailmap_none (no entries = the plain '
+                   'function). All closed under the global context.',
         level_note='Proved about the models, tied to the Go code by correspondence only. The merge half of the property as literally stated ("all pairs '
                    'of identity lists with arbitrary overlaps") is refuted for the current code (F7, known finding; candidate fix in '
                    'docs/C16-F7-candidate-fix.patch); it is proved on the sub-domain that GeneratePeopleDict guarantees. Modelled, not verified: Go '
-                   'string primitives, sort, maps, go-git. Not modelled: the .mailmap branch, LoadPeopleDict, Configure. MergeReversedDictsLiteral is '
+                   'string primitives, sort, maps, go-git. Not modelled: LoadPeopleDict, Configure. ParseMailmap is modelled and replayed without a theorem; it panics '
+                   'on a line that ends in ">" and has no "<" before it (finding mailmap-parse-panic). With a mailmap "attached to developer d" = the '
+                   'keys of PeopleDict that map to d (lower-cased commit names / e-mails, mailmap keys, canonical names / e-mails of the entries that '
+                   'created a developer); which of the two lists a key is printed in is fixed only without a mailmap. MergeReversedDictsLiteral is '
                    'modelled and replayed but has no theorem (it panics / mis-indexes when rd1 contains a duplicate string; observed, outside the '
                    'property). "Names and e-mails attached to a developer" is formalised as: the keys of PeopleDict that map to it, listed under '
                    'names if first seen as a name and under e-mails if first seen as an e-mail.',
